@@ -3,7 +3,7 @@ from registry_common import COMMON_ASSUME
 ENTRY = dict(
     title="Arbitrary line noise causes only protocol errors and bounded loss",
     design_ref="DESIGN.md section 6 / C14",
-    prop_modules=["C14", "C14Chunks", "TieFrame", "TieReader"],
+    prop_modules=["C14", "C14Chunks", "TieFrame", "TieReader", "TieChunks"],
     technique="Lean 4 theorems over all byte strings (progress, bounded demand, re-synchronisation by induction on the noise) + refutation witness for finding F2 + correspondence on noise corpora incl. a real AsyncProtocol producer",
     level_text=(
         "Proof over ALL byte strings: `C14.outcomes`, `C14.connLost_iff`, `C14.progress` (>= 1 byte per call, remainder is a suffix), "
